@@ -21,6 +21,7 @@ VERIF = os.path.dirname(os.path.dirname(os.path.abspath(__file__)))
 sys.path.insert(0, os.path.join(VERIF, "bin"))
 from vprops import PROPS, REAL_VS_STUB  # noqa: E402
 
+OUT = os.environ.get("VERIF_OUT", VERIF)  # where evidence/ and replays/ go (mutant runs redirect it)
 BUILD = os.environ.get("VERIF_BUILD", os.path.join(VERIF, "build"))
 BIN = os.path.join(BUILD, "sim.test")
 NWORKERS = int(os.environ.get("VERIF_WORKERS", "16"))
@@ -382,7 +383,7 @@ def main():
             part, r, v = unknown[0]
             rf = {"engine": part["engine"], "property": prop, "profile": part["profile"], "tier": tier, "index": r["index"],
                   "seed": r["seed"], "choices": r.get("choices") or [], "violation": v, "log_hash": r.get("hash", ""), "opts": part.get("opts", [])}
-            path = os.path.join(VERIF, "replays", prop, "%s-%d.json" % (rule, r["index"]))
+            path = os.path.join(OUT, "replays", prop, "%s-%d.json" % (rule, r["index"]))
             write_replay(path, rf)
             # confirm in a fresh process, then minimise, then confirm twice more
             end, rc, err = replay_once(path, prop)
@@ -431,7 +432,7 @@ def main():
             rf = {"engine": b.part["engine"], "property": prop, "profile": b.part["profile"], "tier": tier, "index": c["begin"]["index"],
                   "seed": c["begin"]["seed"], "choices": vals, "violation": v, "log_hash": "", "opts": b.part.get("opts", []),
                   "stderr_tail": c["stderr"][-3000:]}
-            path = os.path.join(VERIF, "replays", prop, "crash-%d.json" % c["begin"]["index"])
+            path = os.path.join(OUT, "replays", prop, "crash-%d.json" % c["begin"]["index"])
             write_replay(path, rf)
             got = outcome_of(*replay_once(path, prop), prop)
             if got[0] != "crash":
@@ -510,8 +511,8 @@ def main():
             "wall_s": round(wall, 2),
             "violations": len(reported),
         }
-        os.makedirs(os.path.join(VERIF, "evidence"), exist_ok=True)
-        with open(os.path.join(VERIF, "evidence", prop + ".json"), "w") as f:
+        os.makedirs(os.path.join(OUT, "evidence"), exist_ok=True)
+        with open(os.path.join(OUT, "evidence", prop + ".json"), "w") as f:
             json.dump(ev, f, indent=1)
         print("runs=%d distinct_nontrivial=%d sim_s=%.1f wall=%.1fs build=%.1fs crashes=%d harness_errors=%d" % (
             len(runs), len(nontrivial), sim_s, wall, build_s, len(all_crashes), len(harness_errors)), flush=True)
